@@ -136,6 +136,11 @@ Definition wrapper (func : store -> store * res pv) (size : pv) (s : store) : st
     end
   end.
 
+(** the wrapped function entered again [d] times while it is running (recursion, a curve defined through another curve):
+    every level is one more application of the wrapper *)
+Fixpoint nest (d : nat) (f : store -> store * res pv) (size : pv) : store -> store * res pv :=
+  match d with O => f | S d' => wrapper (nest d' f size) size end.
+
 (** ---- comparison with observations of the implementation ---- *)
 Fixpoint store_eqb (a b : store) : bool :=
   match a, b with
